@@ -579,6 +579,11 @@ func (in *Inst) Deliver(kind, name string, d time.Duration) bool {
 	} else {
 		ev = event.NewSignalEvent(name)
 	}
+	return in.DeliverEvent(ev, kind, name, d)
+}
+
+// DeliverEvent hands an event VALUE of any kind to the instance under a deadline; it is recorded as `deliver <kind> <name>`.
+func (in *Inst) DeliverEvent(ev event.IEvent, kind, name string, d time.Duration) bool {
 	in.Op("deliver %s %s", kind, name)
 	done := make(chan struct{})
 	go func() {
